@@ -221,6 +221,67 @@ func (a *Analysis) propagate() {
 			changed = true
 		}
 	}
+	// closures kept in package-level variables: what such a closure captured lives as
+	// long as the package and is shared by every call — its free variables derive from
+	// the variable that holds the closure.  (The closure may be built by a constructor
+	// function whose result is stored into the variable.)
+	closureHome := map[*ssa.MakeClosure]map[*ssa.Global]bool{}
+	{
+		returned := map[*ssa.Function][]*ssa.MakeClosure{}
+		var all []*ssa.Function
+		for fn := range ssautilAll(a.P) {
+			all = append(all, fn)
+		}
+		for _, fn := range all {
+			for _, b := range fn.Blocks {
+				for _, ins := range b.Instrs {
+					if ret, ok := ins.(*ssa.Return); ok {
+						for _, rv := range ret.Results {
+							if mc, ok := rv.(*ssa.MakeClosure); ok {
+								returned[fn] = append(returned[fn], mc)
+							}
+						}
+					}
+				}
+			}
+		}
+		for _, fn := range all {
+			for _, b := range fn.Blocks {
+				for _, ins := range b.Instrs {
+					st, ok := ins.(*ssa.Store)
+					if !ok {
+						continue
+					}
+					g, isG := st.Addr.(*ssa.Global)
+					if !isG {
+						continue
+					}
+					var mcs []*ssa.MakeClosure
+					switch v := st.Val.(type) {
+					case *ssa.MakeClosure:
+						mcs = append(mcs, v)
+					case *ssa.Call:
+						if cal := v.Call.StaticCallee(); cal != nil {
+							mcs = append(mcs, returned[cal]...)
+						}
+					}
+					for _, mc := range mcs {
+						if closureHome[mc] == nil {
+							closureHome[mc] = map[*ssa.Global]bool{}
+						}
+						closureHome[mc][g] = true
+					}
+				}
+			}
+		}
+	}
+	for mc, gs := range closureHome {
+		if cf, ok := mc.Fn.(*ssa.Function); ok {
+			for _, fv := range cf.FreeVars {
+				flowSet(fv, gs)
+			}
+		}
+	}
 	for changed {
 		changed = false
 		for _, fn := range fns {
@@ -772,4 +833,30 @@ func appendUniq(s []string, x string) []string {
 		}
 	}
 	return append(s, x)
+}
+
+// ssautilAll: every function of the analysed library package (members, methods, anonymous functions).
+func ssautilAll(p *core.Program) map[*ssa.Function]bool {
+	out := map[*ssa.Function]bool{}
+	var add func(fn *ssa.Function)
+	add = func(fn *ssa.Function) {
+		if fn == nil || out[fn] {
+			return
+		}
+		out[fn] = true
+		for _, an := range fn.AnonFuncs {
+			add(an)
+		}
+	}
+	for _, fn := range p.SourceFuncs(nil) {
+		add(fn)
+	}
+	if p.SSAPkg != nil {
+		for _, m := range p.SSAPkg.Members {
+			if fn, ok := m.(*ssa.Function); ok {
+				add(fn)
+			}
+		}
+	}
+	return out
 }
